@@ -103,8 +103,27 @@ func init() {
 				}
 			}
 		}
+		// aggregates over a RETRACTING source: the inner GROUP BY g,h fires after every record (TRIGGER COUNTING 1), so the outer
+		// aggregates see every intermediate count retracted and replaced (a value's multiplicity goes 2 -> 1 -> 2 ...)
+		for _, rows := range tables {
+			if len(rows) < 2 {
+				continue
+			}
+			t := mkCSV("t", cols, rows)
+			inner := mkq(t, []*Expr{Col("t.g"), Col("t.h")}, []agg{{"count", false, ""}, {"sum", false, "t.x"}}, "TRIGGER COUNTING 1")
+			for _, okeys := range [][]*Expr{nil, {Col("s.k0")}} {
+				for _, al := range [][]agg{
+					{{"count", true, "s.a0"}, {"sum", true, "s.a0"}, {"avg", true, "s.a0"}, {"array_agg", true, "s.a0"}},
+					{{"count", false, "s.a1"}, {"sum", false, "s.a1"}, {"min", false, "s.a1"}, {"max", false, "s.a1"}, {"avg", false, "s.a0"}},
+				} {
+					o := mkq(t, okeys, al, "")
+					o.From = &From{Sub: inner, Alias: "s"}
+					cases = append(cases, cs{o})
+				}
+			}
+		}
 		r.Bound = map[string]interface{}{"tables": len(tables), "key_sets": len(keysets), "aggregate_lists": len(agglists), "cases": len(cases)}
-		r.Rule = "GROUP BY queries (0-2 key expressions incl. g+1; count(*)/count/sum/avg/min/max/array_agg and DISTINCT variants over Int, Float and String columns, alone and in lists of 3; HAVING-like outer WHERE) x every multiset of <=3 (4) rows over 9 NULL-heavy candidate rows (incl. values that cancel to 0), each run with the hash-map implementation and with TRIGGER COUNTING 1000 (btree implementation), through the real root command vs the reference grouping; non-trivial = result with at least two groups or a NULL aggregate"
+		r.Rule = "GROUP BY queries (0-2 key expressions incl. g+1; count(*)/count/sum/avg/min/max/array_agg and DISTINCT variants over Int, Float and String columns, alone and in lists of 3; HAVING-like outer WHERE; DISTINCT and plain aggregates over a subquery that retracts (GROUP BY g,h TRIGGER COUNTING 1)) x every multiset of <=3 (4) rows over 9 NULL-heavy candidate rows (incl. values that cancel to 0), each run with the hash-map implementation and with TRIGGER COUNTING 1000 (btree implementation), through the real root command vs the reference grouping; non-trivial = result with at least two groups or a NULL aggregate"
 		r.Assume("an empty input with zero key expressions is not judged (the statement says one row per distinct key; SQL would print one row)", "float aggregates over dyadic values compare exactly")
 		cache := newFPCache()
 		enum.Parallel(len(cases), func(i int) {
